@@ -27,15 +27,15 @@ type idCase struct {
 	Kind  string `json:"kind"`
 }
 type idEvent struct {
-	CC     string `json:"cc"`
-	Kind   string `json:"kind"`
-	Raw    []int  `json:"raw"`
-	Norm   []int  `json:"norm"`  // what the code normalised the raw text to
-	Norm2  []int  `json:"norm2"` // ... and normalised again
-	Ok     bool   `json:"ok"`    // accepted by validation
-	PartyOk bool  `json:"party_ok"` // the same verdict through a party carrying the identity
-	Panic  bool   `json:"panic"`
-	Err    string `json:"err"`
+	CC      string `json:"cc"`
+	Kind    string `json:"kind"`
+	Raw     []int  `json:"raw"`
+	Norm    []int  `json:"norm"`     // what the code normalised the raw text to
+	Norm2   []int  `json:"norm2"`    // ... and normalised again
+	Ok      bool   `json:"ok"`       // accepted by validation
+	PartyOk bool   `json:"party_ok"` // the same verdict through a party carrying the identity
+	Panic   bool   `json:"panic"`
+	Err     string `json:"err"`
 }
 
 func idRun(cc string, raw []int, kind string) (ev idEvent) {
